@@ -109,6 +109,9 @@ func c16AudioCodec(kind string) string {
 	if kind == "opus" {
 		return "opus"
 	}
+	if kind == "aacps" {
+		return "mp4a.40.29"
+	}
 	return "mp4a.40.2"
 }
 
@@ -345,6 +348,9 @@ func c16TrackLists(tier string) [][]trackSpec {
 		{{Kind: "opus", Name: "Deutsch", Lang: "de"}},
 		{{Kind: "aac44", Name: "English"}, {Kind: "aac48", Lang: "fr"}},
 		{{Kind: "aac44"}, {Kind: "opus", Name: "b", Lang: "it"}, {Kind: "aac48", Name: "c"}},
+		// two MPEG-4 audio object types, the longer RFC 6381 string first (mp4a.40.29, mp4a.40.2): each is listed
+		{{Kind: "aacps", Name: "ps"}, {Kind: "aac48", Name: "lc"}},
+		{{Kind: "aac44"}, {Kind: "aacps", Name: "ps", Lang: "en"}},
 		// names a quoted-string carries verbatim: a backslash, non-ASCII letters and spaces (U+3000, U+00A0), separators
 		{{Kind: "aac44", Name: "Stereo \\ Commentary", Lang: "en-US"}, {Kind: "opus", Name: "日本語\u3000解説", Lang: "ja"}, {Kind: "aac48", Name: "a b\u00a0c, d=e;#é", Lang: "x-klingon"}},
 	}
